@@ -61,7 +61,13 @@ def run(tier='quick', seed=0):
             return K.divides(T)(gen_num(T, d - 1), gen_num(T, d - 1))
         if k < 0.97:
             return logic.mk_if(gen_bool(d - 1), gen_num(T, d - 1), gen_num(T, d - 1))
-        return K.nat_power(T)(gen_num(T, d - 1), Nat(2))
+        pw = rng.random()
+        if pw < 0.5:
+            return K.nat_power(T)(gen_num(T, d - 1), Nat(2))
+        if pw < 0.75:
+            # a power whose exponent is itself a power / a power of a power (associativity of ^)
+            return K.nat_power(T)(gen_num(T, d - 1), K.nat_power(NatType)(rng.choice([x, y, Nat(2)]), rng.choice([x, Nat(2), Nat(3)])))
+        return K.nat_power(T)(K.nat_power(T)(gen_num(T, d - 1), rng.choice([x, Nat(2)])), rng.choice([y, Nat(3)]))
 
     def gen_bool(d):
         k = rng.random()
@@ -128,11 +134,17 @@ def run(tier='quick', seed=0):
         for lvl in range(depth):            # innermost binder first
             nm = names[depth - 1 - lvl]
             ab = Abs(nm, NatType, t)
-            kind = rng.choice(['all', 'exists', 'collect'])
+            kind = rng.choice(['all', 'exists', 'collect', 'some', 'the'])
             if kind == 'all':
                 t = allC()(ab)
             elif kind == 'exists':
                 t = exC()(ab)
+            elif kind in ('some', 'the'):
+                # e = (SOME nm. t) / (THE nm. t): the choice operators are binders as well
+                loose = depth - lvl - 1
+                elem = rng.choice([Var('k', NatType), x] + [Bound(i) for i in range(loose)])
+                op = Const('Some' if kind == 'some' else 'The', TFun(TFun(NatType, BoolType), NatType))
+                t = K.equals(NatType)(elem, op(ab)) if rng.random() < 0.5 else K.less(NatType)(op(ab), elem)
             else:
                 # e : {nm. t}: membership keeps the term boolean; e may be an outer bound variable
                 loose = depth - lvl - 1
@@ -160,6 +172,14 @@ def run(tier='quick', seed=0):
 
     n = 600 if tier == 'quick' else 8000
     pool = []
+    someC = Const('Some', TFun(TFun(NatType, BoolType), NatType))
+    theC = Const('The', TFun(TFun(NatType, BoolType), NatType))
+    for opC in (someC, theC):
+        for body in (K.less(NatType)(Nat(0), Bound(0)), K.equals(NatType)(Bound(0), Bound(0)),
+                     K.less(NatType)(Bound(0), x), And(K.less(NatType)(Nat(0), Bound(0)), P)):
+            tt = opC(Abs('v', NatType, body))
+            pool.append(K.equals(NatType)(tt, tt))
+            pool.append(K.less(NatType)(K.plus(NatType)(x, tt), y))
     for it in range(n):
         r_ = rng.random()
         if r_ < 0.15:
